@@ -95,11 +95,11 @@ PLAN = {
     ],
 }
 
-CHAIN_GRID = ("chain-coder grid (Word/State: precisions, switchable by change_precision): u8/u16: 8,3,1; u8/u32: 8,5,1; u8/u64: 8,4; "
-              "u16/u32: 16,12,7; u16/u64: 16,8,11; u32/u64: 32,24,12,8; u32/u128: 32,9; u64/u128: 24,2; harness table models")
+CHAIN_GRID = ("chain-coder grid (Word/State: precisions, switchable by change_precision): u8/u16: 8,3,1,7; u8/u32: 8,5,1; u8/u64: 8,4; "
+              "u16/u32: 16,12,7,15; u16/u64: 16,8,11; u32/u64: 32,24,12,8,31; u32/u128: 32,9; u64/u128: 24,2; harness table models")
 
-GRID = ("configuration grid (Word/State: precisions): u8/u16: 1,3,8; u8/u32: 1,5,8; u8/u64: 8,4; u16/u32: 7,12,16; "
-        "u16/u64: 8,16,11; u32/u64: 8,12,16,24,32; u32/u128: 32,9; u64/u128: 24,2; models are harness cumulative "
+GRID = ("configuration grid (Word/State: precisions): u8/u16: 1,3,8; u8/u32: 1,5,8; u8/u64: 8,4; u16/u32: 7,12,16,15; "
+        "u16/u64: 8,16,11; u32/u64: 8,12,16,24,32,31; u32/u128: 32,9; u64/u128: 24,2; models are harness cumulative "
         "tables with 2..8 symbols incl. 1-quantum and (2^P-1)-quantum symbols, precision changing per symbol")
 
 RULES = {
